@@ -157,6 +157,11 @@ func r18load(c *core.Ctx) {
 	_ = fn
 	r18loadX(c, R)
 	// main: GetConfiguration dominates every read; no store into the configuration
+
+	if who := mainDelegates(c); who != "" {
+		c.SoftUndecided("%s: main hands the modes over to %s; the main-level rules read the body of main only", R, who)
+		return
+	}
 	mainFn := mustFunc(c, pMain, "main")
 	mp := core.NewPather(mainFn)
 	gc := core.CallsTo(mainFn, pStg+".Conf.GetConfiguration")
@@ -190,6 +195,10 @@ func r18load(c *core.Ctx) {
 func r18flow(c *core.Ctx, byTag map[string]string) {
 	const R = "R18.flow"
 	c.Rule(R, "every procedure argument and loop bound in main is the field of its documented key (both modes)")
+	if who := mainDelegates(c); who != "" {
+		c.SoftUndecided("%s: main hands the modes over to %s; the main-level rules read the body of main only", R, who)
+		return
+	}
 	mainFn := mustFunc(c, pMain, "main")
 	p := core.NewPather(mainFn)
 	gc := core.CallsTo(mainFn, pStg+".Conf.GetConfiguration")
@@ -447,6 +456,10 @@ func r18mode(c *core.Ctx) {
 		}
 	}
 	// main: procedures only under mode 1/2
+	if who := mainDelegates(c); who != "" {
+		c.SoftUndecided("%s: main hands the modes over to %s; the main-level rules read the body of main only", R, who)
+		return
+	}
 	mainFn := mustFunc(c, pMain, "main")
 	mp := core.NewPather(mainFn)
 	gm := core.CallsTo(mainFn, pStg+".GetMode")
